@@ -23,6 +23,25 @@ pub struct Cfg {
     pub pool: usize,
     /// rarely generate numeric statuses outside 100..=599 (the located error "invalid literal" is expected)
     pub invalid_status: bool,
+    /// out of 100: share of declarations that are functions
+    pub fun_pct: u32,
+    /// minimum number of parameters of a function
+    pub min_params: usize,
+    /// parameter kinds spread evenly over kinds with different casts (schema, content, text, status, transfer, ...)
+    pub spread_params: bool,
+}
+
+impl Cfg {
+    /// Many functions of several parameters of unlike kinds calling each other: what exposes scoping and
+    /// argument-passing mistakes of the evaluator as failing casts.
+    pub fn call_heavy(self) -> Cfg {
+        Cfg {
+            fun_pct: 50,
+            min_params: 2,
+            spread_params: true,
+            ..self
+        }
+    }
 }
 
 impl Default for Cfg {
@@ -40,6 +59,9 @@ impl Default for Cfg {
             allow_default_multi_media: true,
             pool: 12,
             invalid_status: false,
+            fun_pct: 22,
+            min_params: 1,
+            spread_params: false,
         }
     }
 }
@@ -169,6 +191,18 @@ impl<'r> Gen<'r> {
     }
 
     fn pick_param_ty(&mut self) -> Ty {
+        if self.cfg.spread_params {
+            return match self.rng.below(8) {
+                0 => Ty::Obj,
+                1 => Ty::Prim,
+                2 => Ty::Content,
+                3 => Ty::Text,
+                4 => Ty::Status,
+                5 => Ty::Xfer,
+                6 => Ty::Prop(Box::new(Ty::Prim)),
+                _ => self.pick_schema_ty(),
+            };
+        }
         match self.rng.below(100) {
             0..=34 => Ty::Obj,
             35..=49 => Ty::Prim,
@@ -231,7 +265,7 @@ impl<'r> Gen<'r> {
             }
             let mut plans: Vec<Plan> = Vec::new();
             for _ in 0..n {
-                let is_fun = self.rng.chance(22, 100);
+                let is_fun = self.rng.chance(self.cfg.fun_pct, 100);
                 let is_ref = !is_fun && self.rng.chance(22, 100);
                 let ty = if is_ref { self.pick_schema_ty() } else { self.pick_value_ty() };
                 let name = if is_ref {
@@ -255,7 +289,7 @@ impl<'r> Gen<'r> {
                     // Half of the functions take their parameter names from one shared sequence, so that a
                     // caller's parameter and a callee's parameter of the same name meet often.
                     let shared = self.cfg.shadowing && self.rng.chance(1, 2);
-                    let np = self.rng.range(1, 3);
+                    let np = self.rng.range(self.cfg.min_params.clamp(1, 3), 3);
                     for i in 0..np {
                         let pty = self.pick_param_ty();
                         let pn = if shared {
